@@ -285,7 +285,27 @@ def c03Step (sin sobs : Json) : Option String :=
       | none => none
     else none
 
+/-- a `bto` / `bcc` member under any spelling (plain, or prefixed by a JSON-LD alias), at any depth -/
+partial def hiddenAnySpelling (j : Json) : Bool :=
+  match j with
+  | .obj kvs => kvs.foldl (fun acc k v => acc || k == "bto" || k == "bcc" || k.endsWith ":bto" || k.endsWith ":bcc" || hiddenAnySpelling v) false
+  | .arr xs => xs.any hiddenAnySpelling
+  | _ => false
+
+/-- documents written with an aliased `@context` (`as:bto`): not modelled — judged by the oracle alone -/
+def c03Aliased (obs : Json) : Res :=
+  let bad := (stepsOf obs).findSome? fun (_, sobs) =>
+    (libTrace sobs).findSome? fun e =>
+      if (e.name == "batchDeliver" || e.name == "writeBody") && hiddenAnySpelling (e.args.getD 0 Json.null)
+      then some s!"{e.name}: what left the server still carries a hidden-recipient member written with the document's alias: {showArgs [e.args.getD 0 Json.null]}"
+      else none
+  let seen := (stepsOf obs).any fun (_, o) => (libTrace o).any fun e => e.name == "batchDeliver" || e.name == "writeBody"
+  match bad with
+  | none => { agree := true, specOk := true, nontrivial := seen }
+  | some m => { agree := true, specOk := false, why := m, known := "C03-aliased-context" }
+
 def c03 (inp obs : Json) : Res :=
+  if (jstr inp "label").startsWith "aliased" then c03Aliased obs else
   let (agree, why, inconclusive) := replayAll inp obs
   match checkSteps obs c03Step with
   | none => { agree := agree, specOk := true, why := why,
